@@ -259,6 +259,10 @@ def broken_rules(doc):
     return out
 
 
+LATE_RULES = {"undefined-dependency", "duplicate-variable-or-dependency-name", "reserved-variable-name",
+              "empty:label", "empty:source", "type:env.sources", "type:env.labels"}
+
+
 def crash_site(doc, root):
     """file:function of the innermost maestrowf frame of the internal error"""
     import io
@@ -298,6 +302,12 @@ def monitor(doc, desc, out, info, root):
         # consumer (environment / steps / parameters / Study) refused it
         mon.append(("accepted-convertible", "validated specification refused by a consumer: %s after mutation '%s'"
                     % (out, desc)))
+    # rules the validator itself checks: a document that only breaks such rules
+    # must be refused by the validator (phase "load"), not later by a consumer
+    if out.startswith("rejected") and not out.endswith("@load") and broken and \
+            not any(r.split(":")[0] in LATE_RULES or r in LATE_RULES for r in broken):
+        mon.append(("rejected-by-validator", "rule=%s is a validator rule but the document got as far as %s "
+                    "(mutation '%s')" % (broken[0], out, desc)))
     if out == "accepted":
         if broken:
             mon.append(("malformed-accepted", "rule=%s violated after mutation '%s' but the specification was accepted"
@@ -413,6 +423,10 @@ CORPUS_MUTATIONS = [
     ("self dependency (all combos)", lambda d: d["study"][0]["run"].__setitem__("depends", [d["study"][0]["name"] + "_*"])),
     ("self dependency (bare star)", lambda d: d["study"][1]["run"].__setitem__("depends", ["a", d["study"][1]["name"] + "*"])),
     ("variable with value 0", lambda d: d.__setitem__("env", {"variables": {"SEED": 0, "F": 0.0}})),
+    ("odd variable name, null value", lambda d: d.__setitem__("env", {"variables": {"RUN-DIR": None}})),
+    ("odd variable name, list value", lambda d: d.__setitem__("env", {"variables": {"run.dir": ["x"]}})),
+    ("parameter lengths 1 then 2", lambda d: d.__setitem__("global.parameters", {
+        "P": {"values": [1], "label": "P.%%"}, "Q": {"values": [1, 2], "label": "Q.%%"}})),
     ("undefined dependency", lambda d: d["study"][0]["run"].__setitem__("depends", ["nosuch"])),
     ("delete description block", lambda d: d.pop("description")),
     ("study is a scalar", lambda d: d.__setitem__("study", 5)),
